@@ -4,6 +4,7 @@ package main
 // renders the same key=value line as the Lean driver.
 
 import (
+	"reflect"
 	"context"
 	"encoding/hex"
 	"fmt"
@@ -355,6 +356,9 @@ func hostFunc(f HostFn) func(args []object.Object) object.Object {
 			return &object.Integer{Value: s}
 		case "void":
 			return &object.Void{}
+		case "list":
+			// keeps the slice it was handed (a host is entitled to: the arguments belong to the call)
+			return &object.Array{Elements: args}
 		case "nil":
 			return nil
 		case "panic":
@@ -452,8 +456,21 @@ func RunImpl(c *Case) string {
 		sb.WriteString(" main=" + hex.EncodeToString(e.VerifMachine().VerifBytecode()))
 		sb.WriteString(" fns=" + showFuncs(e.VerifMachine().VerifFunctions()))
 	}
+	var lastPtr reflect.Value
 	for i, r := range c.Runs {
 		obj, objErr := buildObj(r.Obj)
+		// a host typically keeps one object and updates it in place between runs: when this run's
+		// object is a pointer to the same struct type as the previous one, reuse that pointer
+		if objErr == "" && obj != nil {
+			if rv := reflect.ValueOf(obj); rv.Kind() == reflect.Ptr && !rv.IsNil() {
+				if lastPtr.IsValid() && lastPtr.Type() == rv.Type() {
+					lastPtr.Elem().Set(rv.Elem())
+					obj = lastPtr.Interface()
+				} else {
+					lastPtr = rv
+				}
+			}
+		}
 		ctx.reset(r.Polls)
 		var out object.Object
 		var err error
